@@ -1,6 +1,7 @@
 package main
 
 import (
+	"fmt"
 	"go/constant"
 	"go/token"
 	"go/types"
@@ -248,6 +249,40 @@ func runC01(w *World, r *Report) {
 		a := cs.In.Common().Args
 		ok := len(a) == 4 && Path(a[0]) == "param:q.currentCountKey" && Path(a[2]) == "param:q.window" && Path(a[3]) == "param:q.maxCount"
 		r.Check(ok, "R9", "quota.Inc/AtomicIncWindow-args", posOf(cs.In), "AtomicIncWindow(%s, _, %s, %s) (want q.currentCountKey, q.window, q.maxCount unmodified)", Path(a[0]), Path(a[2]), Path(a[3]))
+		// the amount added is the request's own cost: extractCountF(APIStream), 0 only when that failed
+		if len(a) == 4 {
+			isExtract := func(x ssa.Value) bool {
+				c, isC := x.(*ssa.Call)
+				return isC && Path(c.Call.Value) == "param:q.extractCountF" && len(c.Call.Args) == 1 && Path(c.Call.Args[0]) == "param:APIStream"
+			}
+			okAmt := false
+			switch x := peel(a[1]).(type) {
+			case *ssa.Phi:
+				nExt, nZero := 0, 0
+				for i, e := range x.Edges {
+					if ex, isE := e.(*ssa.Extract); isE && ex.Index == 0 && isExtract(ex.Tuple) {
+						nExt++
+						continue
+					}
+					if k, isK := e.(*ssa.Const); isK && k.Value != nil && k.Value.ExactString() == "0" {
+						// only on the error edge of extractCountF
+						op, _ := FindRel(relsOfConds(CondsOfEdge(x.Block().Preds[i], x.Block())), func(v ssa.Value) bool {
+							ex, isE := v.(*ssa.Extract)
+							return isE && ex.Index == 1 && isExtract(ex.Tuple)
+						}, isNilConst)
+						if op == "!=" {
+							nZero++
+							continue
+						}
+					}
+					nExt = -100
+				}
+				okAmt = nExt == 1 && nZero <= 1
+			case *ssa.Extract:
+				okAmt = x.Index == 0 && isExtract(x.Tuple)
+			}
+			r.Check(okAmt, "R9", "quota.Inc/amount-is-the-request-cost", posOf(cs.In), "AtomicIncWindow adds extractCountF(APIStream) (0 only when extraction failed): %s", trunc(Path(a[1]), 100))
+		}
 	}
 
 	c01Quota(w, r)
@@ -537,6 +572,52 @@ func c01Hierarchy(w *World, r *Report, la *LockAn) {
 			qid := Derives(alt.Val, func(x ssa.Value) bool { return Path(x) == "param:fw.quotaID" })
 			r.Check(hdr && qid, "R8", "calculateContextKey/derives-from-header-and-id", posOf(alt.Ret), "group key derives from GetHeader(fw.groupByKey)=%v and fw.quotaID=%v", hdr, qid)
 		}
+		// the group part is the header's value exactly when a group header is configured and
+		// present, the default group otherwise
+		isDefault := func(v ssa.Value) bool {
+			if dg := w.constOf(pkgQuota, "DefaultGroup"); dg != nil && isConstVal(v, dg) {
+				return true
+			}
+			return Path(v) == "*global:DefaultGroup"
+		}
+		var gphi *ssa.Phi
+		Instrs(ck, func(in ssa.Instruction) {
+			if p, ok := in.(*ssa.Phi); ok && types.Identical(p.Type().Underlying(), types.Typ[types.String]) {
+				for _, e := range p.Edges {
+					if ex, isE := e.(*ssa.Extract); isE && ex.Index == 0 && isCallTo0(ex.Tuple, "APIStreamI).GetHeader") {
+						gphi = p
+					}
+				}
+			}
+		})
+		if gphi == nil {
+			r.Undec("R8", "calculateContextKey/group-value", ck.Pos(), "group value merge point not found")
+		} else {
+			okG := true
+			var why []string
+			nHdr := 0
+			for i, e := range gphi.Edges {
+				cs := CondsOfEdge(gphi.Block().Preds[i], gphi.Block())
+				if ex, isE := e.(*ssa.Extract); isE && ex.Index == 0 && isCallTo0(ex.Tuple, "APIStreamI).GetHeader") {
+					nHdr++
+					found := condsHave(cs, true, func(v ssa.Value) bool { x, ok := v.(*ssa.Extract); return ok && x.Index == 1 && x.Tuple == ex.Tuple })
+					op, _ := FindRel(relsOfConds(cs), pathRe(`^param:fw\.groupByKey$`), isDefault)
+					if !found || op != "!=" {
+						okG = false
+						why = append(why, fmt.Sprintf("header value used with found=%v, groupByKey %q DefaultGroup", found, op))
+					}
+					continue
+				}
+				if pe, isP := e.(*ssa.Phi); isP && pe == gphi {
+					continue
+				}
+				if !isDefault(e) {
+					okG = false
+					why = append(why, "other value "+trunc(Path(e), 40))
+				}
+			}
+			r.Check(okG && nHdr == 1, "R8", "calculateContextKey/header-value-iff-configured-and-present", gphi.Pos(), "group = header value only when a group header is configured and found, DefaultGroup otherwise %v", why)
+		}
 	}
 	if gq := w.Fn(pkgQuota, "fixedWindow.getQuota"); gq == nil {
 		r.Undec("R8", "getQuota", token.NoPos, "function not found")
@@ -583,6 +664,32 @@ func c01Hierarchy(w *World, r *Report, la *LockAn) {
 			ok := mx != nil && strings.HasSuffix(Path(mx), ".Max") && strings.Contains(Path(mx), "providerCfg.Strategy."+c.cfg+".") && wn != nil && strings.Contains(Path(wn), "ParseWindow(") && strings.Contains(Path(wn), "Strategy."+c.cfg) &&
 				gb != nil && strings.Contains(Path(gb), "GetGroup(") && Path(litField(alt.Val, "parent")) == "param:parent" && strings.HasSuffix(Path(litField(alt.Val, "quotaID")), "providerCfg.ID")
 			r.Check(ok, "R9", c.fn+"/fields", posOf(alt.Ret), "fixedWindow{max: %s, window: %s, groupByKey: %s}", Path(mx), trunc(Path(wn), 80), trunc(Path(gb), 80))
+			if c.fn == "newTransactionalFixedWindow" {
+				// a transaction costs exactly one unit
+				okOne := false
+				var cf *ssa.Function
+				switch x := peel(litField(alt.Val, "extractCountF")).(type) {
+				case *ssa.MakeClosure:
+					cf, _ = x.Fn.(*ssa.Function)
+				case *ssa.Function:
+					cf = x
+				}
+				if cf != nil {
+					okOne = true
+					for _, a0 := range ReturnAlts(cf, 0) {
+						k, isK := peel(a0.Val).(*ssa.Const)
+						if !isK || k.Value == nil || k.Value.ExactString() != "1" {
+							okOne = false
+						}
+					}
+					for _, a1 := range ReturnAlts(cf, 1) {
+						if !isNilConst(a1.Val) {
+							okOne = false
+						}
+					}
+				}
+				r.Check(okOne, "R9", c.fn+"/cost-of-a-transaction-is-one", posOf(alt.Ret), "the transactional window counts every request as 1 (extractCountF returns the constant 1 and no error)")
+			}
 		}
 	}
 	// R9 the configured interval/unit pair becomes the window length: every unit branch of
